@@ -53,7 +53,9 @@ static SDAI_Application_instance *verif_new_complex(std::string **names, int fil
     int n = 0; if (names[0]) { n = 1; if (names[1]) { n = 2; if (names[2]) n = 3; } }
     g_cx_names = n; g_cx_fileid = fileid; return g_cx_obj; }
 #include "stepfile_extract.inc"
+#ifdef VERIF_WITH_SUBSUPER
 #include "subsuper_extract.inc"
+#endif
 #include "stepfile_inline_extract.inc"
 #undef strstr
 #include "src/clutils/errordesc.cc"
